@@ -563,7 +563,9 @@ namespace hv
                 gb.global_state().copy_from(carried.view());
                 Obs obs;
                 GraphExecutorBuilder eb;
-                eb.graph_builder(std::move(gb)).start_time(tabs(c.win_start)).end_time(tabs(c.win_end)).add_lifecycle_observer(&obs);
+                // OPT start2=<t>: the stages after the first run over the window [t, end) (a replay that starts later than the recording)
+                const long long stage_start = stage > 0 ? c.opt_int("start2", c.win_start) : c.win_start;
+                eb.graph_builder(std::move(gb)).start_time(tabs(stage_start)).end_time(tabs(c.win_end)).add_lifecycle_observer(&obs);
                 std::optional<GraphExecutorValue> exo;
                 {
                     std::unique_lock<std::mutex> wiring_lock(g_wiring_mutex, std::defer_lock);
